@@ -26,7 +26,7 @@ META = {
 
 PROFILE = {"n_states": (2, 4), "n_events": (1, 3), "extra_transitions": (1, 4), "p_multi_event": 0.2,
            "p_guard": 0.2, "p_validator": 0.05, "p_conv": 0.2, "p_inline": 0.3, "p_deco": 0.12,
-           "providers": ["sm", "model", "l0"], "p_nested": 0.3, "nested_max": 2, "p_unknown_nested": 0.06}
+           "providers": ["sm", "model", "l0"], "p_nested": 0.3, "nested_max": 2, "p_unknown_nested": 0.06, "yields": 2}
 
 
 def owns(rule, flags):
